@@ -386,7 +386,8 @@ impl<'a> Gen<'a> {
                     let (e, et) = self.any(&cx2, d);
                     let mut b = vec![];
                     let p = self.pattern(&et, &cx2, 2, &mut b);
-                    steps.push(format!("{} ={}", e, p));
+                    // ... or the same as a binding step, `pat = e` (inside a function a name the pattern pins may be mentioned nowhere else)
+                    if self.rng.chance(1, 3) && !e.contains('~') { self.feat("binding_step_as_condition"); steps.push(format!("{} = {}", p, e)); } else { steps.push(format!("{} ={}", e, p)); }
                     for (nme, t) in b { cx2.bind(&nme, t); }
                     cx2.flow = Some(Ty::ok());
                     self.feat("mid_chain_match");
@@ -727,7 +728,15 @@ pub fn check(rep: &Report) {
         in_flight.lock().unwrap().remove(&j);
         let v = match v0 { Ok(v) => v, Err(p) => { if p.contains("stack") { Verdict::Inconclusive("harness stack".into()) } else { Verdict::Disagree(format!("panic: {}", p), "reference or compiler panicked".into(), vec![]) } } };
         match v {
-            Verdict::Rejected(kind) => { rep.count(&format!("{}_rejected_by_compiler", family), 1); if family.starts_with("generated") { rep.count(&format!("generated_rejection={}", kind), 1); if kind.contains("InternalError") && std::env::var("VERIF_C02_SHOW_INTERNAL").is_ok() { eprintln!("INTERNAL [{}] {:?}\n{}\n", family, crate::procsys::compile_entry(&src, &b).err(), src); } } }
+            Verdict::Rejected(kind) => { rep.count(&format!("{}_rejected_by_compiler", family), 1); if family.starts_with("generated") {
+                // The generator only mentions names its own scope model holds, and the reference evaluator resolves names by the
+                // spec's scoping rules: a program the reference runs to a value but the compiler turns down for an undefined
+                // variable is a well-formed program with no compiled value (a closure that failed to capture, a pattern compiled
+                // before the names it pins were visible).
+                if kind.contains("VariableUndefined") { if let (Outcome::Value(r), _) = refsem::evaluate(&src, &mods) {
+                    rep.eval(1);
+                    rep.violation(Violation { signature: format!("C02:{}:rejected:{}", family, cv_hash(&src)), what: format!("the compiler rejects, for an undefined variable, a {} program in which every name is in scope (the reference evaluator runs it to a value)", family), witness: json!({"family": family, "program": src, "compiled": format!("{:?}", crate::procsys::compile_entry(&src, &b).err()), "reference": r.show(), "index": j}) });
+                } } rep.count(&format!("generated_rejection={}", kind), 1); if kind.contains("InternalError") && std::env::var("VERIF_C02_SHOW_INTERNAL").is_ok() { eprintln!("INTERNAL [{}] {:?}\n{}\n", family, crate::procsys::compile_entry(&src, &b).err(), src); } } }
             Verdict::Inconclusive(why) => { rep.count(&format!("{}_inconclusive", family), 1); rep.count(&format!("inconclusive: {}", why), 1); }
             Verdict::Agree => {
                 rep.eval(1); rep.count(&format!("{}_agree", family), 1); rep.distinct(cv_hash(&src));
